@@ -441,7 +441,7 @@ def xrel_faults(e, ents, tkey):
     if tkey == 'Core/assembly_pitch':
         out += ['eq-ftf', 'lt-ftf']
     if tkey == 'Assembly/*/duct_ftf':
-        out += ['eq-pitch', 'gt-pitch', 'inner-eq-outer']
+        out += ['eq-pitch', 'gt-pitch', 'inner-eq-outer', 'outer+0.3pc']
     if tkey == 'Core/length':
         out += ['eq-zlo-top']
     if tkey in ('Assembly/*/AxialRegion/*/z_lo', 'Assembly/*/AxialRegion/*/z_hi'):
@@ -480,9 +480,14 @@ def _xrel_value(e, ents, name):
                 ftfs += [fnum(a) for a in split_list(x['v'])]
         m = max(ftfs)
         return repr(m if name == 'eq-ftf' else m * 0.999)
-    if name in ('eq-pitch', 'gt-pitch', 'inner-eq-outer'):
+    if name in ('eq-pitch', 'gt-pitch', 'inner-eq-outer', 'outer+0.3pc'):
         el = split_list(e['v'])
-        if name == 'inner-eq-outer':
+        if name == 'outer+0.3pc':
+            # the outer flat-to-flat of this type 0.3 % (a fraction of a millimetre) larger than that of the others
+            vals_ = [fnum(a) for a in el]
+            k_ = vals_.index(max(vals_))
+            el[k_] = repr(round(vals_[k_] * 1.003, 9))
+        elif name == 'inner-eq-outer':
             el[-2] = el[-1]
         else:
             pitch = fnum(_get(ents, ('Core',), 'assembly_pitch')['v'])
